@@ -468,6 +468,9 @@ class Acelyzer:
                                       args,
                                       exporter: output.AbstractTraceExporter):
 
+        # the barrier context is a module-level singleton: drop anything a previous (aborted) run left behind
+        event_pipe._main_barrier_context.drain()
+
         ##############################################################
         # Event preparation, cleanup, and sanitization
         # register pre-processing: filtern events with broken time stamps (E < B)
